@@ -124,7 +124,7 @@ func monitorRead(c *hx.Ctx, h hostile, bufSize int, slow *int64) {
 // C11: readers never panic or stall on arbitrary input.
 func C11(c *hx.Ctx) {
 	c.Level = "exploration"
-	c.Rule = "inputs = (every XzDamage field edit on every block of every base stream) + (extreme numeric values in every length/count/offset field) + (all control-byte sequences of length <= 3 plus hostile operations: distances beyond the window/dictionary, lengths past the declared chunk size, rep before any match, end marker inside LZMA2, wrong chunk sizes) + (every cut of every base stream) + seeded random byte strings and random mutations (bit flips, byte stores, splices, duplications, 0xFF runs) of valid seeds of the three formats; each read with buffer sizes 1/7/4096 under recover, a 5 s per-call limit and n <= len(p); declared dictionaries above 64 MiB are clamped as the property states; non-trivial = input that passes the reader's opening checks or is a structured edit"
+	c.Rule = "inputs = (every XzDamage field edit on every block of every base stream) + (extreme numeric values in every length/count/offset field) + (all control-byte sequences of length <= 3 plus hostile operations: distances beyond the window/dictionary, lengths past the declared chunk size, rep before any match, end marker inside LZMA2, wrong chunk sizes) + (every cut of every base stream) + seeded random byte strings and random mutations (bit flips, byte stores, splices, duplications, 0xFF runs) of valid seeds of the three formats; each read with buffer sizes 1/7/4096 under recover, a 5 s per-call limit and n <= len(p); declared dictionaries above 64 MiB are clamped as the property states; non-trivial = input that passes the reader's opening checks or is a structured edit; plus every boundary of the .lzma dictionary-size field, stall detection (abandoned call), three reads after an error"
 	c.Assumptions = []string{"the specification supplies structure (which fields, which sequences), not exhaustiveness over byte strings; coverage-guided fuzzing is not part of this family", "per-call limit measured in wall time with a generous bound"}
 	var inputs []hostile
 	add := func(format string, data []byte, origin string) {
